@@ -1,7 +1,9 @@
 ------------------------------- MODULE MC_Sdk -------------------------------
 (* M for C10: the design of the wire formats, model-checked.                                        *)
-(* State: a meta-model of the family, one of its instances x, a document (JSON or XML) that starts  *)
-(* as the serialization of x and is then hit by up to MaxMut mutation actions.  Invariants:         *)
+(* State: a meta-model of the family (mi), one of its instances x, a document (JSON or XML) that    *)
+(* starts as the serialization of x and is then hit by up to MaxMut mutation actions; strict and    *)
+(* lenient hold what the two flavours of the reference de-serializer make of the document.          *)
+(* Invariants:                                                                                      *)
 (*   RoundTrip      -- the reference de-serializer inverts the serializer (both flavours): the wire *)
 (*                     format is a bijection on its image;                                          *)
 (*   Monotone       -- whatever the strict reference accepts, the lenient one accepts with the same *)
@@ -9,15 +11,16 @@
 (*   ResultTyped    -- an accepted document always yields a well-typed instance of the slot's class; *)
 (*   KindPromise    -- a single mutation does what its name promises (Drop_required is rejected,    *)
 (*                     Extra_property only tolerated, Drop_optional accepted with another value ...) *)
-(*   Base64Inverse  -- (ASSUME) the base64 codec round-trips and the strict decoder is canonical.   *)
+(*   Base64Inverse, Base64Known, Base64Strict -- (ASSUME) the base64 codec round-trips, agrees with *)
+(*                     known vectors, and the strict decoder rejects every text of BADB64.          *)
 EXTENDS SdkModels
 CONSTANTS Depth, MaxMut, Mode, ModelIds
-VARIABLES mi, x, fmt, doc, hist
-vars == <<mi, x, fmt, doc, hist>>
+VARIABLES mi, x, fmt, doc, hist, strict, lenient
+vars == <<mi, x, fmt, doc, hist, strict, lenient>>
 
 Models == SelectSeq(FixedModels \o <<ParamModel(8, 32), ParamModel(22, 15)>>, LAMBDA m : m.id \in ModelIds)
-M == Models[mi]
-Root == M.root
+
+RefOf(m, f, d, len) == IF f = "json" THEN FromJ(m, d, TCls(m.root), len) ELSE FromX(m, d, m.root, len)
 
 Init ==
     /\ mi \in 1..Len(Models)
@@ -25,41 +28,47 @@ Init ==
     /\ fmt \in {"json", "xml"}
     /\ doc = IF fmt = "json" THEN ToJ(Models[mi], x) ELSE ToX(Models[mi], x)
     /\ hist = <<>>
+    /\ strict = RefOf(Models[mi], fmt, doc, FALSE)
+    /\ lenient = RefOf(Models[mi], fmt, doc, TRUE)
 
-Mutants == IF fmt = "json" THEN JRootMutants(M, doc, Root)
-           ELSE IF NamesConcrete(M, doc.tag, Root) THEN XRootMutants(M, doc, ConcreteNamed(M, doc.tag, Root)) ELSE <<>>
+MutantsOf(m) == IF fmt = "json" THEN JRootMutants(m, doc, m.root)
+                ELSE IF NamesConcrete(m, doc.tag, m.root) THEN XRootMutants(m, doc, ConcreteNamed(m, doc.tag, m.root)) ELSE <<>>
 
 Mutate ==
     /\ Len(hist) < MaxMut
-    /\ \E mu \in RangeOf(Mutants) :
+    /\ \E mu \in RangeOf(MutantsOf(Models[mi])) :
         /\ doc' = mu.doc
-        /\ hist' = Append(hist, mu.kind)
+        /\ hist' = Append(hist, [kind |-> mu.kind, at |-> mu.at])
+        /\ strict' = RefOf(Models[mi], fmt, mu.doc, FALSE)
+        /\ lenient' = RefOf(Models[mi], fmt, mu.doc, TRUE)
     /\ UNCHANGED <<mi, x, fmt>>
 
 Next == Mutate
 Spec == Init /\ [][Next]_vars
 
-Strict == IF fmt = "json" THEN FromJ(M, doc, TCls(Root), FALSE) ELSE FromX(M, doc, Root, FALSE)
-Lenient == IF fmt = "json" THEN FromJ(M, doc, TCls(Root), TRUE) ELSE FromX(M, doc, Root, TRUE)
-
-InstanceTyped == WellTyped(M, x, TCls(Root))
-RoundTrip == hist = <<>> => Strict = x /\ Lenient = x
-Monotone == Strict # Reject => Lenient = Strict
-ResultTyped == /\ Strict # Reject => WellTyped(M, Strict, TCls(Root))
-               /\ Lenient # Reject => Lenient.k = "inst"
-KindPromise ==
-    Len(hist) = 1 =>
-        /\ hist[1] \in AlwaysRejectedKinds => Strict = Reject /\ Lenient = Reject
-        /\ hist[1] \in ToleratedKinds => Strict = Reject /\ Lenient # Reject
-        /\ hist[1] \in AcceptedKinds => Strict # Reject
-        /\ hist[1] \in {"Reorder", "Whitespace_text"} => Strict = x
-        /\ hist[1] \in {"Drop_optional", "Swap_items"} => Strict # Reject
-\* a mutation never produces the pristine document of a DIFFERENT instance unless the reference says so: trivial by
-\* construction; what is worth checking is that the set of mutation kinds really covers all three verdicts
-VerdictKind == IF Strict # Reject THEN "MustAcceptWith" ELSE IF Lenient = Reject THEN "MustReject" ELSE "Either"
+InstanceTyped == WellTyped(Models[mi], x, TCls(Models[mi].root))
+RoundTrip == hist = <<>> => strict = x /\ lenient = x
+Monotone == strict # Reject => lenient = strict
+ResultTyped == /\ strict # Reject => WellTyped(Models[mi], strict, TCls(Models[mi].root))
+               /\ lenient # Reject => lenient.k = "inst"
+KindPromise1(kind, at) ==
+    /\ kind \in AlwaysRejectedKinds /\ at # "other_class" => strict = Reject /\ lenient = Reject
+    /\ kind \in ToleratedKinds => strict = Reject /\ lenient # Reject
+    /\ kind \in AcceptedKinds => strict # Reject
+    /\ kind \in {"Reorder", "Whitespace_text"} => strict = x
+    /\ kind \in {"Drop_optional"} => strict # x
+    \* a modelType / discriminator that names another class is decided by the reference alone; where dispatch depends on
+    \* it, an unknown, missing or ill-typed one is always rejected
+    /\ kind \in {"Wrong_modelType", "Missing_modelType"} /\ at \in {"dispatch", "dispatch_null", "dispatch_unknown", "dispatch_not_a_string", "dispatch_lower_case"}
+            => strict = Reject /\ lenient = Reject
+    /\ kind \in {"Wrong_modelType", "Missing_modelType"} /\ at \in {"no_dispatch", "no_dispatch_null", "no_dispatch_unknown", "no_dispatch_not_a_string", "no_dispatch_lower_case", "no_dispatch_other_class"}
+            => strict = Reject /\ lenient = x
+    /\ kind = "Bad_base64" => strict = Reject
+KindPromise == Len(hist) = 1 => KindPromise1(hist[1].kind, hist[1].at)
+VerdictKind == IF strict # Reject THEN "MustAcceptWith" ELSE IF lenient = Reject THEN "MustReject" ELSE "Either"
 
 SmallBytes == {<<>>} \cup {<<a>> : a \in {0, 1, 63, 64, 255}} \cup {<<a, b>> : a, b \in {0, 63, 64, 255}} \cup {<<a, b, c>> : a, b, c \in {0, 127, 255}}
-              \cup {<<a, b, c, d>> : a, b, c, d \in {0, 255}}
+              \cup {<<a, b, c, e>> : a, b, c, e \in {0, 255}}
 ASSUME Base64Inverse == \A bs \in SmallBytes : B64DecStrict(B64Enc(bs)) = [ok |-> TRUE, bs |-> bs]
 ASSUME Base64Known == /\ B64Enc(<<0, 255>>) = <<65, 80, 56, 61>>                        \* "AP8="
                       /\ B64Enc(<<251, 239, 190>>) = <<43, 43, 43, 43>>                 \* "++++"
